@@ -232,6 +232,46 @@ def check_quantiles(spec, keyseeds):
     return dict(n=n, viols=viols, q99=vals[levels.index(0.99)], q50=vals[levels.index(0.5)], array_q_ok=arr_ok, values=vals)
 
 
+def check_mixq_one(spec, gname, vname, raw=None):
+    """One direct call of rex.utils.mixture_distribution_quantiles, the way StaticDist.quantile calls it, with a level vector."""
+    import rex.utils as utils
+
+    jnp = _mods()[1]
+    raw = raw if raw is not None else build(spec)[1]
+    grid = R.mixq_grids(spec)[gname]
+    levels = R.mixq_level_vectors()[vname]
+    buf = io.StringIO()
+    try:
+        with contextlib.redirect_stdout(buf):
+            ret = utils.mixture_distribution_quantiles(dist=raw, probs=jnp.array(levels).reshape(-1), N_grid_points=R.GRID_N, grid_min=float(grid[0]), grid_max=float(grid[1]))
+        ret = np.asarray(ret, dtype=np.float64)
+    except RuntimeError:
+        ret = None
+    except Exception as e:  # noqa
+        return "other", [("mixq:raises", f"{R.spec_name(spec)} grid {gname} levels {vname}: {type(e).__name__}: {e}")]
+    bad = R.judge_mixq(spec, grid, levels, ret)
+    return ("raised" if ret is None else "returned"), [(sig, f"mixture_distribution_quantiles({R.spec_name(spec)}, levels '{vname}', grid '{gname}'): {why}") for sig, why in bad]
+
+
+def check_mixq(spec):
+    """All grids x all level vectors for one mixture of the lattice."""
+    raw = build(spec)[1]
+    out = dict(n=0, raised=0, returned=0, levels=0, viols=[])
+    for gname in R.mixq_grids(spec):
+        for vname, lv in R.mixq_level_vectors().items():
+            how, bad = check_mixq_one(spec, gname, vname, raw)
+            out["n"] += 1
+            out["levels"] += len(lv)
+            out["raised"] += int(how == "raised")
+            out["returned"] += int(how == "returned")
+            seen = set()
+            for sig, why in bad:
+                if sig not in seen:  # one per signature and call is enough
+                    seen.add(sig)
+                    out["viols"].append((sig, why, dict(kind="mixq", spec=spec, grid=gname, levels=vname)))
+    return out
+
+
 # ------------------------------------------------------------------------------------------------
 # default delays of nodes / connections
 # ------------------------------------------------------------------------------------------------
@@ -290,7 +330,9 @@ def task_dist(arg):
     q = check_quantiles(spec, keyseeds)
     nd = check_node_default(spec)
     viols += q.pop("viols") + nd.pop("viols")
-    return dict(spec=spec, hist=h, jit=jn, quant=q, node=nd, viols=viols)
+    mq = check_mixq(spec) if spec["kind"] == "mix" else dict(n=0, raised=0, returned=0, levels=0, viols=[])
+    viols += mq.pop("viols")
+    return dict(spec=spec, hist=h, jit=jn, quant=q, node=nd, mixq=mq, viols=viols)
 
 
 def _fit(data, ncomp, fseed, percentile):
